@@ -62,57 +62,58 @@ theorem SatBody_of_filter (P : String → Tuple → Prop) (W : String → List T
     exact hs.elim
 
 mutual
-/-- checker soundness: a tree accepted by `valid` concludes a derivable fact. -/
+/-- checker soundness: a tree without truncated nodes accepted by `valid` concludes a derivable fact. -/
 theorem valid_sound_aux (prog : Program) (base M : DB) (hM : MSound prog base M) :
-    ∀ t : Tree, valid prog base M t = true → Derivable prog base M t.pred t.args
-  | .node (.fact .edb) pred args kids, h => by
+    ∀ t : Tree, valid prog base M t = true → t.hasTrunc = false → Derivable prog base M t.pred t.args
+  | .node (.fact .edb) pred args kids, h, _ => by
     simp only [valid, Bool.and_eq_true] at h
     exact ⟨0, h.1⟩
-  | .node (.fact .derived) pred args kids, h => by
+  | .node (.fact .derived) pred args kids, h, _ => by
     simp only [valid, Bool.and_eq_true] at h
     exact world_mem prog base M hM pred args h.1
-  | .node (.trunc _) pred args kids, h => by
-    simp only [valid, Bool.and_eq_true] at h
-    exact world_mem prog base M hM pred args h.1
-  | .node (.neg _) _ _ _, h => by simp [valid] at h
-  | .node (.rule idx β) pred args kids, h => by
+  | .node (.trunc _) pred args kids, _, ht => by simp [Tree.hasTrunc] at ht
+  | .node (.neg _) _ _ _, h, _ => by simp [valid] at h
+  | .node (.rule idx β) pred args kids, h, ht => by
     simp only [valid] at h
     split at h
     · simp at h
     · rename_i r hr
       simp only [Bool.and_eq_true, beq_iff_eq] at h
       obtain ⟨⟨⟨hrel, hhead⟩, hcmp⟩, hbody⟩ := h
-      obtain ⟨n, hn⟩ := validKids_sound_aux prog base M hM β kids (r.body.filter Lit.needsChild) hbody
+      simp only [Tree.hasTrunc] at ht
+      obtain ⟨n, hn⟩ := validKids_sound_aux prog base M hM β kids (r.body.filter Lit.needsChild) hbody ht
       have hmem : r ∈ prog := List.mem_of_getElem? hr
       exact ⟨n + 1, Or.inr ⟨r, hmem, hrel, β, hhead, SatBody_of_filter _ _ β r.body hcmp hn⟩⟩
 theorem validKids_sound_aux (prog : Program) (base M : DB) (hM : MSound prog base M) (β : Bindings) :
-    ∀ (ks : List Tree) (ls : List Lit), validKids prog base M β ls ks = true →
+    ∀ (ks : List Tree) (ls : List Lit), validKids prog base M β ls ks = true → Tree.hasTruncList ks = false →
       ∃ n, SatBody (DerivN prog base M n) (world base M) β ls
-  | [], [], _ => ⟨0, trivial⟩
-  | [], _ :: _, h => by unfold validKids at h; simp at h
-  | k :: ks, [], h => by unfold validKids at h; simp at h
-  | k :: ks, .pos a :: ls, h => by
+  | [], [], _, _ => ⟨0, trivial⟩
+  | [], _ :: _, h, _ => by unfold validKids at h; simp at h
+  | k :: ks, [], h, _ => by unfold validKids at h; simp at h
+  | k :: ks, .pos a :: ls, h, ht => by
     unfold validKids at h
     simp only [Bool.and_eq_true, beq_iff_eq] at h
     obtain ⟨⟨⟨hp, hm⟩, hv⟩, hrest⟩ := h
-    obtain ⟨n1, h1⟩ := valid_sound_aux prog base M hM k hv
-    obtain ⟨n2, h2⟩ := validKids_sound_aux prog base M hM β ks ls hrest
+    simp only [Tree.hasTruncList, Bool.or_eq_false_iff] at ht
+    obtain ⟨n1, h1⟩ := valid_sound_aux prog base M hM k hv ht.1
+    obtain ⟨n2, h2⟩ := validKids_sound_aux prog base M hM β ks ls hrest ht.2
     refine ⟨max n1 n2, ⟨k.args, ?_, hm⟩, SatBody_DerivN_mono prog base M (Nat.le_max_right n1 n2) _ β ls h2⟩
     rw [hp] at h1
     exact DerivN_mono prog base M (Nat.le_max_left n1 n2) _ _ h1
-  | k :: ks, .neg a :: ls, h => by
+  | k :: ks, .neg a :: ls, h, ht => by
     unfold validKids at h
     simp only [Bool.and_eq_true] at h
     obtain ⟨hk, hrest⟩ := h
-    obtain ⟨n2, h2⟩ := validKids_sound_aux prog base M hM β ks ls hrest
+    simp only [Tree.hasTruncList, Bool.or_eq_false_iff] at ht
+    obtain ⟨n2, h2⟩ := validKids_sound_aux prog base M hM β ks ls hrest ht.2
     refine ⟨n2, ?_, h2⟩
-    intro t ht
+    intro t ht'
     split at hk
     · simp only [Bool.and_eq_true, List.all_eq_true, Bool.not_eq_true'] at hk
-      exact hk.2 t ht
+      exact hk.2 t ht'
     · simp at hk
-  | k :: ks, .cmp l op r :: ls, h => by unfold validKids at h; simp at h
-  | k :: ks, .other :: ls, h => by unfold validKids at h; simp at h
+  | k :: ks, .cmp l op r :: ls, h, _ => by unfold validKids at h; simp at h
+  | k :: ks, .other :: ls, h, _ => by unfold validKids at h; simp at h
 end
 
 end ILV.Prov
